@@ -526,7 +526,8 @@ func genCase(withHoles bool) func(t *rapid.T) Case {
 		if withHoles && rapid.IntRange(0, 3).Draw(t, "vh") == 0 {
 			h := fmt.Sprintf("h%d", g.nholes+1)
 			g.nholes++
-			c.Data[h] = vals.Str(rapid.SampledFrom([]string{"<b>bold</b> &amp; <i>it</i>", "<ul><li>1</li><li>2 &lt; 3</li></ul>", "plain text", "<p>a</p><p>b</p>", `<a href="/x?a=1&amp;b=2">l</a>`}).Draw(t, "vhv"))
+			c.Data[h] = vals.Str(rapid.SampledFrom([]string{"<b>bold</b> &amp; <i>it</i>", "<ul><li>1</li><li>2 &lt; 3</li></ul>", "plain text", "<p>a</p><p>b</p>", `<a href="/x?a=1&amp;b=2">l</a>`,
+				"Fish &amp; Chips &copy; 2024", "a &lt; b &amp;&amp; c", "x > y", "it's &quot;quoted&quot;", "&#169; &nbsp; done"}).Draw(t, "vhv"))
 			c.VHtml = append(c.VHtml, h)
 			body += `<div v-html="` + h + `"></div>`
 		}
